@@ -11,6 +11,7 @@ TOK = re.compile(r'''
     \s+ |
     (?P<str>c"(?:[^"\\]|\\[0-9A-Fa-f]{2}|\\\\)*") |
     (?P<qid>[@%]"(?:[^"\\]|\\.)*") |
+    (?P<qstr>"(?:[^"\\]|\\.)*") |
     (?P<id>[@%][-a-zA-Z$._0-9]+) |
     (?P<meta>![-a-zA-Z$._0-9]*) |
     (?P<attrgrp>\#[0-9]+) |
@@ -462,7 +463,10 @@ ATTR_WORDS = set('''noundef nonnull noalias readonly writeonly readnone nocaptur
  unnamed_addr local_unnamed_addr inbounds nuw nsw exact nneg disjoint samesign volatile swifterror nest byval sret
  noreturn cold inlinehint alwaysinline noinline optnone uwtable nonlazybind sanitize_address weak linkonce_odr weak_odr
  available_externally external protected writable dead_on_unwind dead_on_return noext nocallback nomerge speculatable
- nocreateundeforpoison'''.split())
+ nocreateundeforpoison allocalign allocptr noprofile optsize minsize nobuiltin builtin convergent hot naked
+ nosanitize_bounds nosanitize_coverage null_pointer_is_valid safestack ssp sspreq sspstrong strictfp nocf_check shadowcallstack
+ presplitcoroutine fn_ret_thunk_extern skipprofile nodivergencesource noduplicate norecurse nonlazybind noredzone
+ noimplicitfloat returns_twice sanitize_memory sanitize_thread sanitize_hwaddress thread_local localdynamic initialexec localexec'''.split())
 ATTR_PAREN = ('align', 'dereferenceable', 'dereferenceable_or_null', 'captures', 'range', 'initializes', 'memory',
               'nofpclass', 'sret', 'byval', 'alignstack', 'allockind', 'allocsize', 'preallocated', 'inalloca', 'elementtype',
               'dead_on_return')
@@ -565,6 +569,8 @@ def parse_module(path, mod):
                 NAMED[name] = parse_type(p)
             continue
         if line.startswith('@'):
+            if line.startswith(('@llvm.used', '@llvm.compiler.used', '@llvm.global_ctors', '@llvm.global_dtors')):
+                continue
             parse_global(line, mod)
             continue
         if line.startswith('define'):
@@ -674,6 +680,14 @@ def parse_function(header, body, mod, path):
                 f.entry = lbl
             continue
         s = line.strip()
+        if cur is None:
+            # unnamed entry block: its implicit label is the next unnamed value number after the parameters
+            nums = [int(n[1:]) for _, n in params if n[1:].isdigit()]
+            lbl0 = str(max(nums) + 1 if nums else 0)
+            cur = []
+            f.blocks[lbl0] = cur
+            f.order.append(lbl0)
+            f.entry = lbl0
         if pend is not None:
             pend += ' ' + s
         else:
@@ -685,7 +699,11 @@ def parse_function(header, body, mod, path):
             continue
         if re.match(r'^%\S+ = landingpad ', pend) and not re.search(r'\b(cleanup|catch|filter)\b', pend):
             continue
-        ins = parse_instr(pend)
+        try:
+            ins = parse_instr(pend)
+        except (NotImplementedError, SyntaxError) as ex:
+            # kept as a trap: executing it is a hard error (never skipped), but code that is never reached may contain it
+            ins = ('unsupported', "%s: %s" % (type(ex).__name__, str(ex)[:160]))
         pend = None
         if ins[0] == 'lpclause':
             # further clause of the previous landingpad
